@@ -187,3 +187,302 @@ Proof.
     + intros [[H|[-> H2']]|[H1' H2']]; [left; exact H|right; auto|right; auto].
 Qed.
 End Round.
+
+(* ---------- one round of `while True` re-establishes the loop-head invariant LH (BetweenQueue) ---------- *)
+Lemma LH_round n G u : nonneg_len n G -> forall Sm G1 V st cur, LH n G u Sm G1 V st cur ->
+  let S1 := tabv false n (fun i => if nmem i V then false else Sm i) in
+  let G2 := zero_cols n V G1 in
+  let st0 := fold_left (visit_w n G2) V st in
+  let st1 := tab_sst n st0 in
+  (forall x, (x < n)%nat -> (S1 x = false <-> In x V \/ Sm x = false)) /\
+  (forall i j, (i < n)%nat -> (j < n)%nat -> G2 i j <> 0 -> 0 < G2 i j /\ S1 j = true) /\
+  (forall i j, (i < n)%nat -> (j < n)%nat -> G2 i j = if S1 j then G i j else 0) /\
+  (forall v, In v V -> (v < n)%nat /\ S1 v = false /\ sD st v = Some cur) /\
+  (forall x, (x < n)%nat -> S1 x = false -> exists d, sD st1 x = Some d /\ d <= cur) /\
+  (forall m, wherev n S1 <> [] -> min_over (sD st1) (wherev n S1) = Some m ->
+     LH n G u S1 G2 (wherev n (fun i => xeq (sD st1 i) (Some m))) st1 m) /\
+  (wherev n S1 <> [] -> min_over (sD st1) (wherev n S1) = None ->
+     forall x, (x < n)%nat -> S1 x = true -> sD st1 x = None).
+Proof.
+  intros Hnn Sm G1 V st cur H S1 G2 st0 st1.
+  pose proof (LH_V_le_qf _ _ _ _ _ _ _ _ H) as HVq.
+  destruct H as [Hqf Hnd Hvis HvisD Hsort HVne HVnd HV HS HG1 Hlast HP HNP HG1x Hcl].
+  assert (HS1 : forall x, (x < n)%nat -> S1 x = if nmem x V then false else Sm x).
+  { intros x Hx. unfold S1. apply tabv_spec. exact Hx. }
+  assert (HS1f : forall x, (x < n)%nat -> (S1 x = false <-> In x V \/ Sm x = false)).
+  { intros x Hx. rewrite (HS1 x Hx). destruct (nmem x V) eqn:E.
+    - apply nmem_In in E. tauto.
+    - apply nmem_false in E. split; [auto|]. intros [?|?]; [contradiction|assumption]. }
+  assert (HS1t : forall x, (x < n)%nat -> (S1 x = true <-> ~ In x V /\ Sm x = true)).
+  { intros x Hx. rewrite (HS1 x Hx). destruct (nmem x V) eqn:E.
+    - apply nmem_In in E. split; [discriminate|tauto].
+    - apply nmem_false in E. tauto. }
+  assert (HG2 : forall i j, (i < n)%nat -> (j < n)%nat -> G2 i j <> 0 -> 0 < G2 i j /\ S1 j = true).
+  { intros i j Hi Hj. unfold G2, zero_cols. rewrite tab_spec by assumption.
+    destruct (nmem j V) eqn:E; [congruence|]. intros Hne. destruct (HG1 i j Hi Hj Hne) as [H1 H2].
+    split; [exact H1|]. apply HS1t; [exact Hj|]. apply nmem_false in E. auto. }
+  assert (HB0 : Bt n S1 (sD st) cur st).
+  { unfold Bt. split; [auto|split; [|split]].
+    - intros x Hx Hx1. apply HS1t in Hx1; [|exact Hx]. destruct Hx1 as [HnV HSx].
+      destruct (HS x Hx HSx) as [E|[d [E Hd]]]; [left; exact E|]. right. exists d. split; [exact E|].
+      destruct (Z.eq_dec d cur) as [->|Hne]; [|lia]. exfalso. apply HnV. apply HV. auto.
+    - intros x w Hx Hw E. destruct (HP x w Hx Hw E) as [H1 H2]. split; [|exact H2].
+      apply HS1f; [exact Hw|]. right; exact H1.
+    - exact HNP. }
+  assert (HVprop : forall v, In v V -> (v < n)%nat /\ S1 v = false /\ sD st v = Some cur).
+  { intros v Hv. pose proof (proj1 (HV v) Hv) as (H1 & H2 & H3). split; [exact H1|]. split; [|exact H3].
+    apply HS1f; [exact H1|]. left; exact Hv. }
+  pose proof (fold_visit_Bt n G2 S1 (sD st) cur HG2 V st HVprop HB0) as HBt. fold st0 in HBt.
+  destruct (fold_visit_vis n G2 V st HVq Hqf) as [Hvis0 Hqf0]. fold st0 in Hvis0, Hqf0.
+  destruct (tab_sst_spec n st0) as (TD & TNP & TP & TQ & Tqf). fold st1 in TD, TNP, TP, TQ, Tqf.
+  assert (Hqf1 : sqf st1 = (sqf st - length V)%nat) by congruence.
+  assert (Hvis1 : vis n st1 = rev V ++ vis n st).
+  { unfold st1. rewrite tab_sst_vis by lia. exact Hvis0. }
+  destruct HBt as (B1 & B2 & B3 & B4).
+  (* the new permanent set *)
+  assert (Hvis1_in : forall x, In x (vis n st1) <-> (x < n)%nat /\ S1 x = false).
+  { intros x. rewrite Hvis1, in_app_iff, <- in_rev, Hvis. split.
+    - intros [Hx|[Hx Hx']].
+      + pose proof (proj1 (HV x) Hx) as (H1 & _). split; [exact H1|]. apply HS1f; auto.
+      + split; [exact Hx|]. apply HS1f; auto.
+    - intros [Hx Hx']. apply HS1f in Hx'; [|exact Hx]. tauto. }
+  assert (Hnd1 : NoDup (vis n st1)).
+  { rewrite Hvis1. apply NoDup_app_intro; [apply NoDup_rev; exact HVnd|exact Hnd|].
+    intros z Hz Hz'. apply in_rev in Hz. apply HV in Hz. apply Hvis in Hz'.
+    destruct Hz as (_ & E & _), Hz' as (_ & E'). congruence. }
+  assert (HvisD1 : forall x, In x (vis n st1) -> exists d, sD st1 x = Some d /\ d <= cur).
+  { intros x Hx. pose proof (proj1 (Hvis1_in x) Hx) as [Hxn Hx1].
+    rewrite (TD x Hxn), (B1 x Hxn Hx1). rewrite Hvis1, in_app_iff, <- in_rev in Hx. destruct Hx as [Hx|Hx].
+    - apply HV in Hx. destruct Hx as (_ & _ & E). exists cur. split; [exact E|lia].
+    - apply HvisD; exact Hx. }
+  assert (Hsort1 : StronglySorted (fun a b => xle (sD st1 b) (sD st1 a)) (vis n st1)).
+  { apply (sorted_ext (fun a b => xle (sD st b) (sD st a))).
+    - intros a b Ha Hb. pose proof (proj1 (Hvis1_in a) Ha) as [Han Ha1]. pose proof (proj1 (Hvis1_in b) Hb) as [Hbn Hb1].
+      rewrite (TD a Han), (TD b Hbn), (B1 a Han Ha1), (B1 b Hbn Hb1). auto.
+    - rewrite Hvis1. apply sorted_app.
+      + apply sorted_all. intros a b Ha Hb. apply in_rev in Ha. apply in_rev in Hb.
+        apply HV in Ha. apply HV in Hb. destruct Ha as (_ & _ & ->), Hb as (_ & _ & ->). cbn. lia.
+      + exact Hsort.
+      + intros a b Ha Hb. apply in_rev in Ha. apply HV in Ha. destruct Ha as (_ & _ & ->).
+        destruct (HvisD b Hb) as [d [-> Hd]]. cbn. exact Hd. }
+  assert (Hlast1 : last (vis n st1) u = u) by (rewrite Hvis1; exact Hlast).
+  assert (Hvis1_ne : vis n st1 <> []).
+  { rewrite Hvis1. destruct V as [|v V']; [congruence|]. cbn [rev]. intros E.
+    apply app_eq_nil in E. destruct E as [E _]. apply app_eq_nil in E. destruct E as [_ E]. discriminate. }
+  assert (HP1 : forall x w, (x < n)%nat -> (w < n)%nat -> sP st1 x w = true ->
+            S1 w = false /\ exists dw g, sD st1 w = Some dw /\ 0 < g /\ sD st1 x = Some (dw + g)).
+  { intros x w Hx Hw. rewrite (TP x w Hx Hw). intros E. destruct (B3 x w Hx Hw E) as [H1 (dw & g & H2 & H3 & H4)].
+    split; [exact H1|]. exists dw, g. rewrite (TD w Hw), (TD x Hx), (B1 w Hw H1). auto. }
+  assert (HNP1 : forall x, (x < n)%nat -> sD st1 x <> None -> 0 < sNP st1 x).
+  { intros x Hx. rewrite (TD x Hx), (TNP x Hx). apply B4; exact Hx. }
+  assert (HS1D : forall x, (x < n)%nat -> S1 x = true -> sD st1 x = None \/ exists d, sD st1 x = Some d /\ cur < d).
+  { intros x Hx. rewrite (TD x Hx). apply B2; exact Hx. }
+  assert (Hqf1n : (sqf st1 <= n)%nat) by lia.
+  assert (HG2x : forall i j, (i < n)%nat -> (j < n)%nat -> G2 i j = if S1 j then G i j else 0).
+  { intros i j Hi Hj. unfold G2, zero_cols. rewrite tab_spec by assumption. rewrite (HS1 j Hj), (HG1x i j Hi Hj).
+    destruct (nmem j V); reflexivity. }
+  assert (Hcl1 : forall v w, (v < n)%nat -> (w < n)%nat -> S1 v = false -> G v w <> 0 ->
+            exists dv dw, sD st1 v = Some dv /\ sD st1 w = Some dw /\ dw <= dv + G v w).
+  { intros v w Hv Hw Hv1 Hg. rewrite (TD v Hv), (TD w Hw), (B1 v Hv Hv1).
+    assert (Hgpos : 0 < G v w) by (specialize (Hnn v w Hv Hw); lia).
+    pose proof Hv1 as Hv1'. apply HS1f in Hv1'; [|exact Hv]. destruct Hv1' as [HvV|HvS].
+    + pose proof (proj1 (HV v) HvV) as (_ & _ & Ev). exists cur. rewrite Ev.
+      destruct (S1 w) eqn:Ew1.
+      * destruct (fold_visit_w_setq n G2 V cur st) with (v := v) (w := w) as (dw & H1 & H2); auto.
+        -- intros x Hx. apply HV in Hx. destruct Hx as (_ & _ & E). exists cur. split; [exact E|lia].
+        -- rewrite (HG2x v w Hv Hw), Ew1. exact Hg.
+        -- exists dw. fold st0 in H1. rewrite (HG2x v w Hv Hw), Ew1 in H2. auto.
+      * assert (Hin : In w (vis n st1)) by (apply Hvis1_in; auto).
+        destruct (HvisD1 w Hin) as [d [E Hd]]. rewrite (TD w Hw) in E. exists d. split; [reflexivity|]. split; [exact E|lia].
+    + destruct (Hcl v w Hv Hw HvS Hg) as (dv & dw & E1 & E2 & Hle). exists dv. rewrite E1.
+      destruct (fold_visit_w_dec n G2 V st w dw E2) as (dw' & H1 & H2). fold st0 in H1.
+      exists dw'. split; [reflexivity|]. split; [exact H1|lia]. }
+  split; [exact HS1f|]. split; [exact HG2|]. split; [exact HG2x|]. split; [exact HVprop|]. split; [|split].
+  - intros x Hx Hx1. apply HvisD1. apply Hvis1_in. auto.
+  - intros m Hselne Em. set (sel := wherev n S1) in *.
+    assert (Hsel : forall x, In x sel <-> (x < n)%nat /\ S1 x = true) by (intros x; apply wherev_In).
+    destruct (min_over_spec (sD st1) sel Hselne) as [Hmin [xm [Hxm Hxm']]]. rewrite Em in Hmin, Hxm'.
+  assert (Hm : cur < m).
+  { apply Hsel in Hxm. destruct Hxm as [H1 H2]. destruct (HS1D xm H1 H2) as [E|[d [E Hd]]]; congruence. }
+  assert (HV' : forall v, In v (wherev n (fun i => xeq (sD st1 i) (Some m))) <->
+                  (v < n)%nat /\ S1 v = true /\ sD st1 v = Some m).
+  { intros v. rewrite wherev_In. split.
+    - intros [Hv E]. split; [exact Hv|]. unfold xeq in E. destruct (sD st1 v) as [d|] eqn:Ed; [|discriminate].
+      apply Z.eqb_eq in E. subst d. split; [|reflexivity].
+      destruct (S1 v) eqn:ES; [reflexivity|]. exfalso.
+      assert (In v (vis n st1)) by (apply Hvis1_in; auto). destruct (HvisD1 v H) as [d [E1 E2]]. 
+      assert (d = m) by congruence. lia.
+    - intros (Hv & _ & E). split; [exact Hv|]. rewrite E. cbn. apply Z.eqb_refl. }
+  constructor; auto.
+  * intros x Hx. destruct (HvisD1 x Hx) as [d [E Hd]]. exists d. split; [exact E|lia].
+  * intros E. assert (In xm (wherev n (fun i => xeq (sD st1 i) (Some m)))).
+    { apply HV'. apply Hsel in Hxm. destruct Hxm. auto. }
+    rewrite E in H. exact H.
+  * apply wherev_NoDup.
+  * intros x Hx Hx1. assert (Hin : In x sel) by (apply Hsel; auto). specialize (Hmin x Hin).
+    destruct (sD st1 x) as [d|]; [|left; reflexivity]. right. exists d. split; [reflexivity|exact Hmin].
+  * rewrite last_app_ne by exact Hvis1_ne. exact Hlast1.
+  - intros Hselne Em. set (sel := wherev n S1) in *.
+    assert (Hsel : forall x, In x sel <-> (x < n)%nat /\ S1 x = true) by (intros x; apply wherev_In).
+    destruct (min_over_spec (sD st1) sel Hselne) as [Hmin _]. rewrite Em in Hmin.
+    intros x Hx Hx1. assert (Hin : In x sel) by (apply Hsel; auto). specialize (Hmin x Hin).
+    destruct (sD st1 x); [contradiction|reflexivity].
+Qed.
+
+(* ---------- the counting invariant at the loop head ---------- *)
+Definition LC (n : nat) (G : mat Z) (u : nat) (Sm : vec bool) (st : sst) : Prop :=
+  (forall x, (x < n)%nat -> x <> u -> sNP st x = sumn (fun v => b2z (sP st x v) * sNP st v) n) /\
+  sNP st u = 1 /\ (forall v, (v < n)%nat -> sP st u v = false) /\
+  (forall x v, (x < n)%nat -> (v < n)%nat ->
+     (sP st x v = true <-> Sm v = false /\ G v x <> 0 /\ exists dv, sD st v = Some dv /\ sD st x = Some (dv + G v x))).
+
+Lemma LC_round n G u : nonneg_len n G -> forall Sm G1 V st cur, LH n G u Sm G1 V st cur ->
+  LC n G u Sm st -> (Sm u = false \/ In u V) ->
+  let S1 := tabv false n (fun i => if nmem i V then false else Sm i) in
+  let G2 := zero_cols n V G1 in
+  let st1 := tab_sst n (fold_left (visit_w n G2) V st) in
+  LC n G u S1 st1 /\ S1 u = false.
+Proof.
+  intros Hnn Sm G1 V st cur H (L1 & L2 & L2' & L3) L4 S1 G2 st1.
+  pose proof (LH_round n G u Hnn Sm G1 V st cur H) as HR. cbn zeta in HR. fold S1 G2 in HR. fold st1 in HR.
+  destruct HR as (HS1f & HG2 & HG2x & HVprop & HD1 & _ & _).
+  destruct H as [Hqf Hnd Hvis HvisD Hsort HVne HVnd HV HS HG1 Hlast HP HNP HG1x Hcl].
+  assert (Hu : (u < n)%nat).
+  { destruct L4 as [E|E]; [|apply HV in E; tauto]. destruct (Nat.lt_ge_cases u n) as [|Hge]; [assumption|exfalso].
+    (* u >= n: then V would be empty of candidates ... use the last element of the queue *)
+    assert (Hin : In u (rev V ++ vis n st)).
+    { rewrite <- Hlast. assert (Hne : rev V ++ vis n st <> []).
+      { destruct V as [|v V']; [congruence|]. cbn [rev]. intros E'. apply app_eq_nil in E'. destruct E' as [E' _].
+        apply app_eq_nil in E'. destruct E' as [_ E']. discriminate. }
+      destruct (exists_last Hne) as [l' [z Ez]]. rewrite Ez, last_last. apply in_app_iff. right. left. reflexivity. }
+    apply in_app_iff in Hin. destruct Hin as [Hin|Hin]; [apply in_rev, HV in Hin|apply Hvis in Hin]; lia. }
+  assert (HS1u : S1 u = false) by (apply HS1f; [exact Hu|tauto]).
+  split; [|exact HS1u].
+  set (st0 := fold_left (visit_w n G2) V st) in *.
+  (* the round-level invariant *)
+  assert (HC0 : Ct n G2 S1 (sD st) (sNP st) (sP st) cur (fun _ _ => False) st).
+  { split.
+    - intros x Hx _. unfold Frow. auto.
+    - intros w Hw HSw. unfold Rrow. split; [apply xleo_refl|]. split; [intros v _ []|]. split.
+      + intros v Hv. split; [auto|]. intros [[E _]|[[] _]]. exact E.
+      + apply L1; [exact Hw|]. intros ->. congruence. }
+  assert (HVc : forall v, In v V -> (v < n)%nat /\ S1 v = false /\ sD st v = Some cur /\
+            (forall x, (x < n)%nat -> sP st x v = false) /\ forall b : nat, ~ False).
+  { intros v Hv. destruct (HVprop v Hv) as (A1 & A2 & A3). repeat split; auto.
+    intros x Hx. destruct (sP st x v) eqn:E; [|reflexivity]. apply (L3 x v Hx A1) in E. destruct E as [E _].
+    apply HV in Hv. destruct Hv as (_ & E' & _). congruence. }
+  pose proof (fold_visit_Ct n G2 S1 (sD st) (sNP st) (sP st) cur HG2 V (fun _ _ => False) st HVnd HVc HC0) as [F R].
+  fold st0 in F, R.
+  destruct (tab_sst_spec n st0) as (TD & TNP & TP & _ & _). fold st1 in TD, TNP, TP.
+  assert (HSmS1 : forall v, (v < n)%nat -> Sm v = false -> S1 v = false) by (intros v Hv E; apply HS1f; auto).
+  assert (Hgpos : forall v x, (v < n)%nat -> (x < n)%nat -> G v x <> 0 -> 0 < G v x).
+  { intros v x Hv Hx Hg. specialize (Hnn v x Hv Hx). lia. }
+  unfold LC. split; [|split; [|split]].
+  - (* path counts *)
+    intros x Hx Hxu. rewrite (TNP x Hx). destruct (S1 x) eqn:ESx.
+    + destruct (R x Hx ESx) as (_ & _ & A1 & A2). rewrite A2. apply sumn_ext. intros v Hv.
+      rewrite (TP x v Hx Hv). destruct (sP st0 x v) eqn:E; [|reflexivity]. f_equal.
+      rewrite (TNP v Hv). apply (A1 v Hv) in E. symmetry.
+      destruct E as [[E _]|[[[]|[E _]] _]].
+      * apply (L3 x v Hx Hv) in E. destruct E as [E _]. apply (F v Hv (HSmS1 v Hv E)).
+      * destruct (HVprop v E) as (_ & E' & _). apply (F v Hv E').
+    + destruct (F x Hx ESx) as (_ & EN & EP). rewrite EN, (L1 x Hx Hxu). apply sumn_ext. intros v Hv.
+      rewrite (TP x v Hx Hv), (EP v Hv). destruct (sP st x v) eqn:E; [|reflexivity]. f_equal.
+      rewrite (TNP v Hv). apply (L3 x v Hx Hv) in E. destruct E as [E _]. symmetry. apply (F v Hv (HSmS1 v Hv E)).
+  - rewrite (TNP u Hu). destruct (F u Hu HS1u) as (_ & EN & _). congruence.
+  - intros v Hv. rewrite (TP u v Hu Hv). destruct (F u Hu HS1u) as (_ & _ & EP). rewrite (EP v Hv). apply L2'; exact Hv.
+  - (* predecessor links = tight connections out of permanent nodes *)
+    intros x v Hx Hv. rewrite (TP x v Hx Hv), (TD x Hx), (TD v Hv). destruct (S1 x) eqn:ESx.
+    + destruct (R x Hx ESx) as (A0 & _ & A1 & _). rewrite (A1 v Hv). split.
+      * intros [[E ED]|[[[]|[E Hg]] ED]].
+        -- apply (L3 x v Hx Hv) in E. destruct E as (E1 & E2 & dv & E3 & E4).
+           split; [apply HSmS1; assumption|]. split; [exact E2|]. exists dv.
+           destruct (F v Hv (HSmS1 v Hv E1)) as (EDv & _). rewrite EDv, ED. auto.
+        -- destruct (HVprop v E) as (_ & E1 & E2). split; [exact E1|].
+           assert (EG : G2 v x = G v x) by (rewrite (HG2x v x Hv Hx), ESx; reflexivity).
+           rewrite EG in Hg, ED. split; [exact Hg|]. exists cur.
+           destruct (F v Hv E1) as (EDv & _). rewrite EDv. split; [exact E2|exact (proj2 ED)].
+      * intros (E1 & Hg & dv & E3 & E4). destruct (F v Hv E1) as (EDv & _). rewrite EDv in E3.
+        apply (HS1f v Hv) in E1. destruct E1 as [E1|E1].
+        -- right. split; [right; split; [exact E1|rewrite (HG2x v x Hv Hx), ESx; exact Hg]|].
+           rewrite (HG2x v x Hv Hx), ESx. apply HV in E1. destruct E1 as (_ & _ & E1).
+           assert (dv = cur) by congruence. subst dv. split; [exact Hg|exact E4].
+        -- left. destruct (Hcl v x Hv Hx E1 Hg) as (dv' & dw & C1 & C2 & C3).
+           assert (dv' = dv) by congruence. subst dv'. rewrite E4, C2 in A0. cbn in A0.
+           assert (dw = dv + G v x) by lia. subst dw. split; [|congruence].
+           apply (L3 x v Hx Hv). split; [exact E1|]. split; [exact Hg|]. exists dv. auto.
+    + destruct (F x Hx ESx) as (EDx & _ & EP). rewrite (EP v Hv), EDx, (L3 x v Hx Hv). split.
+      * intros (E1 & E2 & dv & E3 & E4). split; [apply HSmS1; assumption|]. split; [exact E2|]. exists dv.
+        destruct (F v Hv (HSmS1 v Hv E1)) as (EDv & _). rewrite EDv. auto.
+      * intros (E1 & Hg & dv & E3 & E4). destruct (F v Hv E1) as (EDv & _). rewrite EDv in E3.
+        apply (HS1f v Hv) in E1. destruct E1 as [E1|E1]; [exfalso|split; [exact E1|]; split; [exact Hg|]; exists dv; auto].
+        apply HV in E1. destruct E1 as (_ & _ & E1). assert (dv = cur) by congruence. subst dv.
+        destruct (HD1 x Hx ESx) as (d & C1 & C2). rewrite (TD x Hx), EDx, E4 in C1.
+        inversion C1. pose proof (Hgpos v x Hv Hx Hg). lia.
+Qed.
+
+(* what the finished search state satisfies *)
+Definition CF (n : nat) (G : mat Z) (u : nat) (st : sst) : Prop :=
+  (forall x v, (x < n)%nat -> (v < n)%nat ->
+     (sP st x v = true <-> G v x <> 0 /\ exists dv, sD st v = Some dv /\ sD st x = Some (dv + G v x))) /\
+  sNP st u = 1 /\
+  (forall x, (x < n)%nat -> x <> u -> sNP st x = sumn (fun v => b2z (sP st x v) * sNP st v) n).
+
+Lemma search_w_counts n G u : nonneg_len n G -> forall fuel Sm G1 V st cur st',
+  LH n G u Sm G1 V st cur -> LC n G u Sm st -> (Sm u = false \/ In u V) ->
+  search_w fuel n Sm G1 V st = Some st' -> CF n G u st'.
+Proof.
+  intros Hnn. induction fuel as [|f IH]; intros Sm G1 V st cur st' H HL L4 E; [discriminate|].
+  cbn [search_w] in E.
+  pose proof (LH_round n G u Hnn Sm G1 V st cur H) as HR. cbn zeta in HR.
+  pose proof (LC_round n G u Hnn Sm G1 V st cur H HL L4) as HC. cbn zeta in HC.
+  set (S1 := tabv false n (fun i => if nmem i V then false else Sm i)) in *.
+  set (G2 := zero_cols n V G1) in *.
+  set (st1 := tab_sst n (fold_left (visit_w n G2) V st)) in *.
+  destruct HR as (_ & _ & _ & _ & HD1 & Hnext & Hnone).
+  destruct HC as [(L1 & L2 & L2' & L3) HS1u].
+  assert (Hfin : (forall v dv, (v < n)%nat -> sD st1 v = Some dv -> S1 v = false) -> CF n G u st1).
+  { intros Hs. split; [|split; [exact L2|exact L1]]. intros x v Hx Hv. rewrite (L3 x v Hx Hv). split.
+    - intros (_ & A & B). auto.
+    - intros (A & dv & B & C). split; [apply (Hs v dv Hv B)|]. split; [exact A|]. exists dv. auto. }
+  destruct (wherev n S1) as [|a sel'] eqn:Esel.
+  - inversion E; subst st'. apply Hfin. intros v dv Hv _. destruct (S1 v) eqn:ES; [|reflexivity]. exfalso.
+    assert (In v (wherev n S1)) by (apply wherev_In; auto). rewrite Esel in H0. exact H0.
+  - cbn zeta in E. assert (Hne : a :: sel' <> []) by discriminate.
+    destruct (min_over (sD st1) (a :: sel')) as [m|] eqn:Em; cbn [isinf] in E.
+    + refine (IH S1 G2 _ st1 m st' _ _ _ E); [apply Hnext; [exact Hne|reflexivity]| |left; exact HS1u].
+      unfold LC. auto.
+    + unfold fill_front in E. destruct (Nat.eqb _ _); [|discriminate]. inversion E; subst st'.
+      assert (Hc : CF n G u st1).
+      { apply Hfin. intros v dv Hv Ed. destruct (S1 v) eqn:ES; [|reflexivity].
+        rewrite (Hnone Hne eq_refl v Hv ES) in Ed. discriminate. }
+      exact Hc.
+Qed.
+
+(* ---------- the weighted search in full ---------- *)
+Theorem source_w_counts n G u : (u < n)%nat -> nonneg_len n G ->
+  exists st, source_w n G u = Some st /\ queue_ok n u st /\ closed n G st /\
+    (forall x, (x < n)%nat -> sD st x = dist_spec n G u x) /\ counts_ok n G u st.
+Proof.
+  intros Hu HG. destruct (queue_slots_w_closed n G u Hu HG) as (st & E & Hok & Hcl). exists st.
+  split; [exact E|]. split; [exact Hok|]. split; [exact Hcl|].
+  destruct (search_w_dist n G u Hu HG) as (st' & E' & _ & HD & _).
+  assert (st' = st) by congruence. subst st'. split; [exact HD|].
+  assert (HC : CF n G u st).
+  { unfold source_w in E. apply (search_w_counts n G u HG n _ _ _ _ 0 st (LH_init n G u Hu HG)); [|right; left; reflexivity|exact E].
+    unfold LC, init_w. cbn [sD sNP sP]. split; [|split; [|split]].
+    - intros x Hx Hxu. rewrite vupd_other by exact Hxu. symmetry. rewrite (sumn_ext _ (fun _ => 0)); [apply sumn_zero|]. reflexivity.
+    - apply vupd_same.
+    - reflexivity.
+    - intros x v _ _. split; [discriminate|]. intros [A _]. discriminate. }
+  destruct HC as (C1 & C2 & C3). split; [|split; [exact C2|exact C3]].
+  intros w v Hw Hv. destruct (tightb n G u v w) eqn:Et.
+  - apply (C1 w v Hw Hv). apply tightb_true in Et. destruct Et as [He (dv & E1 & E2)].
+    unfold edge in He. apply negb_true_iff, Z.eqb_neq in He. split; [exact He|]. exists dv.
+    rewrite (HD v Hv), (HD w Hw). auto.
+  - destruct (sP st w v) eqn:Ep; [|reflexivity]. apply (C1 w v Hw Hv) in Ep. destruct Ep as [Hg (dv & E1 & E2)].
+    rewrite <- Et. symmetry. apply tightb_true. split; [unfold edge; apply negb_true_iff, Z.eqb_neq; exact Hg|].
+    exists dv. rewrite <- (HD v Hv), <- (HD w Hw). auto.
+Qed.
+
+Print Assumptions source_w_counts.
